@@ -397,16 +397,22 @@ def run(ctx):
     for c in CORPUS:
         c = copy.deepcopy(c)
         batch.append((c, rerun(c)))
+    def flush():
+        lines, spans = [], []
+        for case, _ in batch:
+            ml = graphcheck.model_lines(case)
+            spans.append((len(lines), len(lines) + len(ml)))
+            lines += ml
+        answers = common.lean_driver("Graph", lines) if lines else []
+        for (case, obs), (a, b) in zip(batch, spans):
+            evaluate(ctx, case, obs, answers[a:b])
+        del batch[:]
+
     for _ in range(n):
         batch.append(run_history(gen_nodes(ctx.rng), ctx.rng, ctx.rng.randint(5, 12)))
-    lines, spans = [], []
-    for case, _ in batch:
-        ml = graphcheck.model_lines(case)
-        spans.append((len(lines), len(lines) + len(ml)))
-        lines += ml
-    answers = common.lean_driver("Graph", lines)
-    for (case, obs), (a, b) in zip(batch, spans):
-        evaluate(ctx, case, obs, answers[a:b])
+        if len(batch) >= 500:
+            flush()
+    flush()
     ctx.coverage["rule"] = ("corpus + random histories of 5-12 operations (emit 50%, connect, disconnect (7% on an absent edge), destroy, drop+gc) over "
                             "graphs of 3-8 nodes with zip / combine_latest / union joins; connect never creates a parallel edge or a cycle; links and "
                             "liveness are read after every operation. Non-trivial: >= 1 edit and >= 6 flow events.")
